@@ -77,6 +77,14 @@ proof fn lemma_limb_split(l: u64, s: u32)
     lemma_mod_multiples_basic(l as int - hi * pr, ps);
 }
 
+proof fn lemma_val_one(s: Seq<Limb>)
+    ensures val(s, 1) == s[0].0 as int
+{
+    lemma_bp1();
+    assert(val(s, 1) == val(s, 0) + s[0].0 as int * bp(0));
+    assert(s[0].0 as int * bp(0) == s[0].0 as int) by (nonlinear_arith) requires bp(0) == 1;
+}
+
 /// a | b == a + b when a is a multiple of 2^r and b < 2^r
 proof fn lemma_or_add(a: u64, b: u64, r: u32)
     requires r < 64, (b as int) < p2(r as nat), (a as int) % p2(r as nat) == 0
@@ -248,16 +256,26 @@ proof fn lemma_tv_zero(s: Seq<Limb>, a: nat, b: nat)
 
 /// limb-wise OR of a value below 2^s and a multiple of 2^s is their sum
 proof fn lemma_uint_or_disjoint(a: Seq<Limb>, b: Seq<Limb>, o: Seq<Limb>, n: nat, s: nat)
-    requires s < 64 * n, val(a, n) < p2(s), val(b, n) % p2(s) == 0,
+    requires s <= 64 * n, val(a, n) < p2(s), val(b, n) % p2(s) == 0,
         forall|k: int| 0 <= k < n ==> o[k].0 == a[k].0 | b[k].0
     ensures val(o, n) == val(a, n) + val(b, n)
 {
+    if s == 64 * n {
+        // b == 0
+        lemma_bp_pow2(n); lemma_val_bound(b, n);
+        lemma_small_mod(val(b, n) as nat, p2(s) as nat);
+        lemma_val_zero_iff(b, n);
+        assert forall|k: int| 0 <= k < n implies o[k] == a[k] by { let x = a[k].0; assert(x | 0 == x) by (bit_vector); }
+        lemma_val_ext(o, a, n);
+        return;
+    }
     let sn = s / 64; let rem = s % 64;
     lemma_bp_pow2(sn); lemma_pow2_adds(64 * sn, rem); lemma_pow2_pos(rem); lemma_bp_succ(sn); lemma_pow2_64();
     let pr = p2(rem); let ps = bp(sn); let ps1 = bp(sn + 1);
     assert(p2(s) == ps * pr);
     lemma_pow2_strictly_increases(rem, 64);
-    assert(pr * ps < ps1) by (nonlinear_arith) requires pr < B(), ps > 0, ps1 == B() * ps;
+    lemma_bp_succ(sn + 1);
+    assert(ps * pr < ps1 && pr * ps == ps * pr) by (nonlinear_arith) requires pr < B(), ps > 0, ps1 == B() * ps;
     // a: nothing above limb sn, a[sn] < 2^rem
     lemma_val_bound(a, n); lemma_val_bound(a, sn);
     lemma_val_mod(a, sn + 1, n);
@@ -280,7 +298,6 @@ proof fn lemma_uint_or_disjoint(a: Seq<Limb>, b: Seq<Limb>, o: Seq<Limb>, n: nat
     lemma_val_zero_iff(b, sn);
     lemma_val_mod(b, sn + 1, n);
     lemma_val_step(b, sn);
-    lemma_bp_succ(sn + 1);
     lemma_fundamental_div_mod(vb, ps1);
     let t = vb / ps1; let bsn = b[sn as int].0 as int;
     assert(pr * q == B() * t + bsn) by (nonlinear_arith) requires (pr * q) * ps == (B() * ps) * t + bsn * ps, ps > 0;
@@ -301,7 +318,7 @@ proof fn lemma_uint_or_disjoint(a: Seq<Limb>, b: Seq<Limb>, o: Seq<Limb>, n: nat
 
 /// (x * w) mod w^2 == (x mod w) * w
 proof fn lemma_mod_shift_w(x: int, w: int)
-    requires w > 0
+    requires w > 0, x >= 0
     ensures (x * w) % (w * w) == (x % w) * w
 {
     lemma_truncate_middle(x, w, w);
@@ -311,7 +328,7 @@ proof fn lemma_mod_shift_w(x: int, w: int)
 
 /// double-width left shift by 0 < s < bits (w = 2^bits)
 proof fn lemma_wide_shl_small(l: int, u: int, w: int, s: nat, bits: nat)
-    requires w == p2(bits), 0 < s < bits, 0 <= l < w, 0 <= u < w
+    requires w == p2(bits), s < bits, 0 <= l < w, 0 <= u < w
     ensures l / p2((bits - s) as nat) < p2(s), 0 <= l / p2((bits - s) as nat), ((u * p2(s)) % w) % p2(s) == 0,
         l / p2((bits - s) as nat) + (u * p2(s)) % w < w,
         (l * p2(s)) % w + (l / p2((bits - s) as nat) + (u * p2(s)) % w) * w == ((l + u * w) * p2(s)) % (w * w),
@@ -331,7 +348,7 @@ proof fn lemma_wide_shl_small(l: int, u: int, w: int, s: nat, bits: nat)
     lemma_fundamental_div_mod(u * ps, w); lemma_mod_bound(u * ps, w);
     let q = (u * ps) / w;
     let k = u - pr * q;
-    assert(uh == k * ps) by (nonlinear_arith) requires u * ps == (ps * pr) * q + uh;
+    assert(uh == k * ps) by (nonlinear_arith) requires u * ps == (ps * pr) * q + uh, k == u - pr * q;
     lemma_mod_multiples_basic(k, ps);
     assert(k < pr) by (nonlinear_arith) requires k * ps < ps * pr, ps > 0;
     assert(uh <= w - ps) by (nonlinear_arith) requires uh == k * ps, k <= pr - 1, ps * pr == w, ps > 0;
@@ -344,7 +361,7 @@ proof fn lemma_wide_shl_small(l: int, u: int, w: int, s: nat, bits: nat)
 
 /// double-width right shift by 0 < s < bits (w = 2^bits)
 proof fn lemma_wide_shr_small(l: int, u: int, w: int, s: nat, bits: nat)
-    requires w == p2(bits), 0 < s < bits, 0 <= l < w, 0 <= u < w
+    requires w == p2(bits), s < bits, 0 <= l < w, 0 <= u < w
     ensures 0 <= l / p2(s) < p2((bits - s) as nat), ((u * p2((bits - s) as nat)) % w) % p2((bits - s) as nat) == 0,
         l / p2(s) + (u * p2((bits - s) as nat)) % w + (u / p2(s)) * w == (l + u * w) / p2(s),
 {
@@ -367,100 +384,678 @@ proof fn lemma_wide_shr_small(l: int, u: int, w: int, s: nat, bits: nat)
 
 //@@ subst \b(Self|Uint)::(ZERO|ONE|MAX|BITS|LOG2_BITS)\b(?!\() => \1::\2()
 //@@ subst \bUint::<(\w+)>::(ZERO|ONE|MAX|BITS)\b(?!\() => Uint::<\1>::\2()
-//@@ fn src/uint/bits.rs | impl<const LIMBS: usize> Uint<LIMBS> | bits | stub | props C05 C11
-impl<const LIMBS: usize> Uint<LIMBS> {
-#[verifier::external_body]
-pub const fn bits(&self) -> (ret__: u32)
+
+// ---------------------------------------------------------------- bit queries (src/uint/bits.rs)
+
+// ---- private lemmas for the bit queries -------------------------------------------------------
+/// value of the limbs m..n, divided by B^m
+spec fn vhi(s: Seq<Limb>, m: nat, n: nat) -> int
+    decreases n
+{ if n <= m { 0 } else { vhi(s, m, (n - 1) as nat) + s[n - 1].0 as int * bp((n - 1 - m) as nat) } }
+
+proof fn lemma_val_split_hi(s: Seq<Limb>, m: nat, n: nat)
+    requires m <= n
+    ensures val(s, n) == val(s, m) + vhi(s, m, n) * bp(m), vhi(s, m, n) >= 0
+    decreases n
+{
+    if n > m {
+        let n1 = (n - 1) as nat;
+        lemma_val_split_hi(s, m, n1);
+        lemma_bp_add(m, (n1 - m) as nat);
+        lemma_bp_succ((n1 - m) as nat);
+        let a = s[n1 as int].0 as int; let q = bp((n1 - m) as nat); let h = vhi(s, m, n1); let pm = bp(m);
+        assert((m + (n1 - m)) as nat == n1);
+        assert((h + a * q) * pm == h * pm + a * (pm * q)) by (nonlinear_arith);
+        assert(a * q >= 0) by (nonlinear_arith) requires a >= 0, q > 0;
+    } else {
+        assert(vhi(s, m, n) * bp(m) == 0) by (nonlinear_arith) requires vhi(s, m, n) == 0;
+    }
+}
+
+/// val(s, n) = val(s, j) + (s[j] + h*B) * B^j  with h >= 0
+proof fn lemma_val_at(s: Seq<Limb>, j: nat, n: nat) -> (h: int)
+    requires j < n
+    ensures h >= 0, val(s, n) == val(s, j) + (s[j as int].0 as int + h * B()) * bp(j)
+{
+    let h = vhi(s, j + 1, n);
+    lemma_val_split_hi(s, j + 1, n);
+    lemma_bp_succ(j);
+    let a = s[j as int].0 as int; let p = bp(j);
+    assert(val(s, j + 1) == val(s, j) + a * p);
+    assert((a + h * B()) * p == a * p + h * (B() * p)) by (nonlinear_arith);
+    h
+}
+
+/// bit e+r of  l + (a + h*2^64) * 2^e  is bit r of a   (0 <= l < 2^e, r < 64)
+proof fn lemma_bit_of_sum(l: int, a: int, h: int, e: nat, r: nat)
+    requires 0 <= l < p2(e), a >= 0, h >= 0, r < 64
+    ensures ((l + (a + h * B()) * p2(e)) / p2(e + r)) % 2 == (a / p2(r)) % 2
+{
+    let pe = p2(e); let pr = p2(r);
+    let w = a + h * B();
+    let v = l + w * pe;
+    lemma_pow2_pos(e); lemma_pow2_pos(r); lemma_pow2_adds(e, r);
+    assert(w >= 0) by (nonlinear_arith) requires a >= 0, h >= 0, w == a + h * B(), B() > 0;
+    assert(w * pe >= 0) by (nonlinear_arith) requires w >= 0, pe > 0;
+    lemma_div_denominator(v, pe, pr);
+    lemma_fundamental_div_mod_converse(v, pe, w, l);
+    assert(v / pe == w);
+    // w / 2^r == a / 2^r + h * 2^(64-r)
+    let k = p2((64 - r) as nat);
+    lemma_pow2_adds(r, (64 - r) as nat); lemma_pow2_64();
+    assert(pr * k == B());
+    let q = a / pr; let m = a % pr;
+    lemma_fundamental_div_mod(a, pr); lemma_mod_bound(a, pr);
+    assert(w == (q + h * k) * pr + m) by (nonlinear_arith) requires w == a + h * B(), a == pr * q + m, pr * k == B();
+    lemma_fundamental_div_mod_converse(w, pr, q + h * k, m);
+    assert(w / pr == q + h * k);
+    // 2^(64-r) is even
+    let k2 = p2((63 - r) as nat);
+    lemma_pow2_adds(1, (63 - r) as nat);
+    assert(k == 2 * k2);
+    assert(q + h * k == 2 * (h * k2) + q) by (nonlinear_arith) requires k == 2 * k2;
+    lemma_mod_multiples_vanish(h * k2, q, 2);
+    assert(v / p2(e + r) == (v / pe) / pr);
+}
+
+/// bit 64j+r of val(s, n) is bit r of limb j
+proof fn lemma_val_bit(s: Seq<Limb>, n: nat, j: nat, r: nat)
+    requires j < n, r < 64
+    ensures (val(s, n) / p2(64 * j + r)) % 2 == (s[j as int].0 as int / p2(r)) % 2
+{
+    let h = lemma_val_at(s, j, n);
+    lemma_val_bound(s, j); lemma_bp_pow2(j);
+    lemma_bit_of_sum(val(s, j), s[j as int].0 as int, h, 64 * j, r);
+}
+
+/// (a + h*2^64) * 2^e is a multiple of 2^(e+z) when 2^z | a  (z <= 64)
+proof fn lemma_mult_of_sum(a: int, h: int, e: nat, z: nat)
+    requires z <= 64, a % p2(z) == 0
+    ensures ((a + h * B()) * p2(e)) % p2(e + z) == 0
+{
+    let pz = p2(z); let pe = p2(e); let k = p2((64 - z) as nat); let pez = p2(e + z);
+    lemma_pow2_pos(z); lemma_pow2_pos(e); lemma_pow2_pos(e + z);
+    lemma_pow2_adds(e, z); lemma_pow2_adds(z, (64 - z) as nat); lemma_pow2_64();
+    lemma_fundamental_div_mod(a, pz);
+    let q = a / pz;
+    assert((a + h * B()) * pe == (q + h * k) * pez) by (nonlinear_arith) requires a == pz * q, pz * k == B(), pez == pe * pz;
+    lemma_mod_multiples_basic(q + h * k, pez);
+}
+
+/// 2^(b-1) <= a < 2^b, 0 <= l < 2^e  ==>  2^(e+b-1) <= l + a*2^e < 2^(e+b)
+proof fn lemma_top_bounds(l: int, a: int, e: nat, b: nat)
+    requires 0 <= l < p2(e), b >= 1, p2((b - 1) as nat) <= a < p2(b)
+    ensures p2((e + b - 1) as nat) <= l + a * p2(e) < p2(e + b)
+{
+    let pe = p2(e); let lo = p2((b - 1) as nat); let hi = p2(b);
+    lemma_pow2_adds(e, b); lemma_pow2_adds(e, (b - 1) as nat); lemma_pow2_pos(e);
+    assert(e + (b - 1) as nat == (e + b - 1) as nat);
+    assert(pe * lo == p2((e + b - 1) as nat));
+    assert(pe * hi == p2(e + b));
+    assert(a * pe >= pe * lo) by (nonlinear_arith) requires a >= lo, pe > 0;
+    assert((a + 1) * pe <= pe * hi) by (nonlinear_arith) requires a + 1 <= hi, pe > 0;
+    assert((a + 1) * pe == a * pe + pe) by (nonlinear_arith);
+}
+
+/// the limbs above j are zero and limb j has exactly b >= 1 significant bits: the value has 64j+b bits
+proof fn lemma_val_top(s: Seq<Limb>, n: nat, j: nat, b: nat)
+    requires j < n, forall|k: int| j < k < n ==> s[k].0 == 0, 1 <= b <= 64,
+        p2((b - 1) as nat) <= s[j as int].0 as int, (s[j as int].0 as int) < p2(b)
+    ensures p2((64 * j + b - 1) as nat) <= val(s, n) < p2(64 * j + b)
+{
+    lemma_val_hi_zero(s, j + 1, n);
+    lemma_val_bound(s, j); lemma_bp_pow2(j);
+    assert(val(s, j + 1) == val(s, j) + s[j as int].0 as int * bp(j));
+    lemma_top_bounds(val(s, j), s[j as int].0 as int, 64 * j, b);
+}
+
+/// the limbs below j are zero and limb j has z < 64 trailing zeros: the value has 64j+z trailing zeros
+proof fn lemma_val_tz(s: Seq<Limb>, n: nat, j: nat, z: nat)
+    requires j < n, forall|k: int| 0 <= k < j ==> s[k].0 == 0, z < 64,
+        (s[j as int].0 as int) % p2(z) == 0, (s[j as int].0 as int / p2(z)) % 2 == 1
+    ensures val(s, n) % p2(64 * j + z) == 0, (val(s, n) / p2(64 * j + z)) % 2 == 1, val(s, n) != 0
+{
+    lemma_val_zero(s, j);
+    let h = lemma_val_at(s, j, n);
+    lemma_bp_pow2(j);
+    lemma_mult_of_sum(s[j as int].0 as int, h, 64 * j, z);
+    lemma_val_bit(s, n, j, z);
+    lemma_pow2_pos(64 * j + z);
+    if val(s, n) == 0 { lemma_basic_div(0, p2(64 * j + z)); }
+}
+
+/// the limbs below j are MAX and limb j has z < 64 trailing ones: the value has 64j+z trailing ones
+proof fn lemma_val_to(s: Seq<Limb>, n: nat, j: nat, z: nat)
+    requires j < n, forall|k: int| 0 <= k < j ==> s[k].0 == u64::MAX, z < 64,
+        (s[j as int].0 as int + 1) % p2(z) == 0, (s[j as int].0 as int / p2(z)) % 2 == 0
+    ensures (val(s, n) + 1) % p2(64 * j + z) == 0, (val(s, n) / p2(64 * j + z)) % 2 == 0, val(s, n) != bp(n) - 1
+{
+    lemma_val_all_max(s, j);
+    let h = lemma_val_at(s, j, n);
+    lemma_bp_pow2(j);
+    let a = s[j as int].0 as int; let p = bp(j);
+    assert(val(s, n) + 1 == ((a + 1) + h * B()) * p) by (nonlinear_arith)
+        requires val(s, n) == (p - 1) + (a + h * B()) * p;
+    lemma_mult_of_sum(a + 1, h, 64 * j, z);
+    lemma_val_bit(s, n, j, z);
+    // not all ones: limb j is not MAX (its bit z is clear)
+    if val(s, n) == bp(n) - 1 {
+        let t = Seq::new(n, |k: int| Limb(u64::MAX));
+        lemma_val_all_max(t, n);
+        lemma_val_inj(s, t, n);
+        assert(s[j as int].0 == t[j as int].0);
+        let zz = z as u32;
+        lemma_u64_shr_div(u64::MAX, zz);
+        assert((0xffff_ffff_ffff_ffffu64 >> zz) % 2 == 1) by (bit_vector) requires zz < 64;
+        assert(false);
+    }
+}
+
+/// t differs from s only at limb j
+proof fn lemma_val_update(s: Seq<Limb>, t: Seq<Limb>, j: nat, n: nat)
+    requires j < n, forall|k: int| 0 <= k < n && k != j ==> s[k] == t[k]
+    ensures val(t, n) - val(s, n) == (t[j as int].0 as int - s[j as int].0 as int) * bp(j)
+    decreases n
+{
+    if n == j + 1 {
+        lemma_val_ext(s, t, j);
+        let a = s[j as int].0 as int; let b = t[j as int].0 as int; let p = bp(j);
+        assert((b - a) * p == b * p - a * p) by (nonlinear_arith);
+    } else {
+        lemma_val_update(s, t, j, (n - 1) as nat);
+        assert(s[n - 1] == t[n - 1]);
+    }
+}
+
+/// clearing / setting bit r of a word, at the integer level
+proof fn lemma_word_set_bit(x: u64, r: u32)
+    requires r < 64
+    ensures (1u64 << r) as int == p2(r as nat),
+        (x & !(1u64 << r)) as int == x as int - (if (x as int / p2(r as nat)) % 2 == 1 { p2(r as nat) } else { 0 }),
+        (x | (1u64 << r)) as int == x as int + (if (x as int / p2(r as nat)) % 2 == 1 { 0 } else { p2(r as nat) }),
+        (x & (1u64 << r)) >> r == (if (x as int / p2(r as nat)) % 2 == 1 { 1u64 } else { 0u64 }),
+{
+    let m = 1u64 << r; let y = x >> r;
+    lemma_one_shl(r as u64);
+    assert(1u64 << r == 1u64 << (r as u64)) by (bit_vector) requires r < 64;
+    lemma_u64_shr_div(x, r);
+    assert(y % 2 == 1 ==> (x & !m) == x - m && (x | m) == x && (x & m) >> r == 1) by (bit_vector) requires y == x >> r, m == 1u64 << r, r < 64;
+    assert(y % 2 != 1 ==> (x & !m) == x && (x | m) == x + m && (x & m) >> r == 0) by (bit_vector) requires y == x >> r, m == 1u64 << r, r < 64;
+}
+
+/// value-level effect of replacing limb j (bit r cleared, then set to c)
+proof fn lemma_set_bit_value(s: Seq<Limb>, t: Seq<Limb>, n: nat, j: nat, r: nat, c: int)
+    requires j < n, r < 64, c == 0 || c == 1, forall|k: int| 0 <= k < n && k != j ==> s[k] == t[k],
+        t[j as int].0 as int == s[j as int].0 as int
+            - (if (s[j as int].0 as int / p2(r)) % 2 == 1 { p2(r) } else { 0 }) + (if c == 1 { p2(r) } else { 0 })
+    ensures val(t, n) == val(s, n) - ((val(s, n) / p2(64 * j + r)) % 2) * p2(64 * j + r) + c * p2(64 * j + r)
+{
+    let a = s[j as int].0 as int; let b = t[j as int].0 as int; let pr = p2(r); let p = bp(j); let pi = p2(64 * j + r);
+    let bit = (a / pr) % 2;
+    lemma_val_update(s, t, j, n);
+    lemma_val_bit(s, n, j, r);
+    lemma_bp_pow2(j); lemma_pow2_adds(64 * j, r);
+    assert(pi == p * pr);
+    assert(bit == 0 || bit == 1);
+    assert(b - a == (c - bit) * pr) by (nonlinear_arith)
+        requires bit == 0 || bit == 1, c == 0 || c == 1, b - a == (if c == 1 { pr } else { 0 }) - (if bit == 1 { pr } else { 0 });
+    assert((b - a) * p == c * pi - bit * pi) by (nonlinear_arith) requires b - a == (c - bit) * pr, pi == p * pr;
+}
+
+//@@ fn src/uint/bits.rs | - | bit | body | props C05 C11
+pub const fn bit(limbs: &[Limb], index: u32) -> (ret__: ConstChoice)
 //@+
-    requires 1 <= LIMBS < 0x400_0000
-    ensures ret__ as int <= 64 * LIMBS, (ret__ == 0) == (self.v() == 0), self.v() < p2(ret__ as nat), ret__ > 0 ==> self.v() >= p2((ret__ - 1) as nat)
+    requires limbs@.len() < 0x400_0000
+    ensures ret__.wf(), ret__.t() == ((index as int) < 64 * limbs@.len() && (val(limbs@, limbs@.len()) / p2(index as nat)) % 2 == 1)
 //@-
 {
-    unimplemented!()
-}
-}
-//@@ end
-//@@ fn src/uint/bits.rs | impl<const LIMBS: usize> Uint<LIMBS> | bits_vartime | stub | props C05 C11 C15
-impl<const LIMBS: usize> Uint<LIMBS> {
-#[verifier::external_body]
-pub const fn bits_vartime(&self) -> (ret__: u32)
+    let limb_num = index / Limb::BITS;
+    let index_in_limb = index % Limb::BITS;
+    let index_mask = 1 << index_in_limb;
+    let mut result = 0;
+    let mut i = 0;
+    while i < limbs.len()
 //@+
-    requires 1 <= LIMBS < 0x400_0000
-    ensures ret__ as int <= 64 * LIMBS, (ret__ == 0) == (self.v() == 0), self.v() < p2(ret__ as nat), ret__ > 0 ==> self.v() >= p2((ret__ - 1) as nat)
+    invariant i <= limbs@.len(), limbs@.len() < 0x400_0000,
+        result == (if (limb_num as int) < i { limbs@[limb_num as int].0 & index_mask } else { 0u64 }),
+    decreases limbs@.len() - i,
 //@-
 {
-    unimplemented!()
-}
+//@+
+    let ghost r0 = result; let ghost y = limbs@[i as int].0 & index_mask;
+    assert((r0 | 0u64) == r0 && (0u64 | y) == y) by (bit_vector);
+//@-
+        let bit = limbs[i].0 & index_mask;
+        let is_right_limb = ConstChoice::from_u32_eq(i as u32, limb_num);
+        result |= is_right_limb.if_true_word(bit);
+        i += 1;
+    }
+//@+
+    proof {
+        if (limb_num as int) < limbs@.len() {
+            lemma_word_set_bit(limbs@[limb_num as int].0, index_in_limb);
+            lemma_val_bit(limbs@, limbs@.len(), limb_num as nat, index_in_limb as nat);
+            assert(index as nat == 64 * (limb_num as nat) + index_in_limb as nat);
+        } else {
+            assert(0u64 >> index_in_limb == 0u64) by (bit_vector);
+        }
+    }
+//@-
+    ConstChoice::from_word_lsb(result >> index_in_limb)
 }
 //@@ end
-//@@ fn src/uint/bits.rs | impl<const LIMBS: usize> Uint<LIMBS> | leading_zeros | stub | props C05 C11
-impl<const LIMBS: usize> Uint<LIMBS> {
-#[verifier::external_body]
-pub const fn leading_zeros(&self) -> (ret__: u32)
+//@@ fn src/uint/bits.rs | - | bit_vartime | body | props C05 C11 C15
+pub const fn bit_vartime(limbs: &[Limb], index: u32) -> (ret__: bool)
 //@+
-    requires 1 <= LIMBS < 0x400_0000
-    ensures ret__ as int <= 64 * LIMBS, (ret__ as int == 64 * LIMBS) == (self.v() == 0), self.v() < p2((64 * LIMBS - ret__) as nat), (ret__ as int) < 64 * LIMBS ==> self.v() >= p2((64 * LIMBS - ret__ - 1) as nat)
+    ensures ret__ == ((index as int) < 64 * limbs@.len() && (val(limbs@, limbs@.len()) / p2(index as nat)) % 2 == 1)
 //@-
 {
-    unimplemented!()
-}
+    let limb_num = (index / Limb::BITS) as usize;
+    let index_in_limb = (index % Limb::BITS) as usize;
+//@+
+    proof {
+        if limb_num < limbs@.len() {
+            let x = limbs@[limb_num as int].0; let r = (index % 64) as u32;
+            lemma_u64_shr_div(x, r);
+            assert(x >> index_in_limb == x >> r) by (bit_vector) requires index_in_limb == r, r < 64;
+            let y = x >> r;
+            assert((y & 1 == 1) == (y % 2 == 1)) by (bit_vector);
+            lemma_val_bit(limbs@, limbs@.len(), limb_num as nat, r as nat);
+            assert(index as nat == 64 * (limb_num as nat) + r as nat);
+        }
+    }
+//@-
+    if limb_num >= limbs.len() {
+        false
+    } else {
+        (limbs[limb_num].0 >> index_in_limb) & 1 == 1
+    }
 }
 //@@ end
-//@@ fn src/uint/bits.rs | impl<const LIMBS: usize> Uint<LIMBS> | trailing_zeros | stub | props C05 C11
-impl<const LIMBS: usize> Uint<LIMBS> {
-#[verifier::external_body]
-pub const fn trailing_zeros(&self) -> (ret__: u32)
+//@@ fn src/uint/bits.rs | - | leading_zeros | body | props C05 C11
+pub const fn leading_zeros(limbs: &[Limb]) -> (ret__: u32)
 //@+
-    requires 1 <= LIMBS < 0x400_0000
-    ensures ret__ as int <= 64 * LIMBS, (ret__ as int == 64 * LIMBS) == (self.v() == 0), self.v() % p2(ret__ as nat) == 0, (ret__ as int) < 64 * LIMBS ==> (self.v() / p2(ret__ as nat)) % 2 == 1
+    requires limbs@.len() < 0x400_0000
+    ensures ret__ as int <= 64 * limbs@.len(), (ret__ as int == 64 * limbs@.len()) == (val(limbs@, limbs@.len()) == 0),
+        val(limbs@, limbs@.len()) < p2((64 * limbs@.len() - ret__) as nat),
+        (ret__ as int) < 64 * limbs@.len() ==> val(limbs@, limbs@.len()) >= p2((64 * limbs@.len() - ret__ - 1) as nat)
 //@-
 {
-    unimplemented!()
-}
-}
-//@@ end
-//@@ fn src/uint/bits.rs | impl<const LIMBS: usize> Uint<LIMBS> | trailing_zeros_vartime | stub | props C05 C11 C15
-impl<const LIMBS: usize> Uint<LIMBS> {
-#[verifier::external_body]
-pub const fn trailing_zeros_vartime(&self) -> (ret__: u32)
 //@+
-    requires 1 <= LIMBS < 0x400_0000
-    ensures ret__ as int <= 64 * LIMBS, (ret__ as int == 64 * LIMBS) == (self.v() == 0), self.v() % p2(ret__ as nat) == 0, (ret__ as int) < 64 * LIMBS ==> (self.v() / p2(ret__ as nat)) % 2 == 1
+    let ghost n = limbs@.len(); let ghost v = val(limbs@, limbs@.len());
+//@-
+    let mut count = 0;
+    let mut i = limbs.len();
+    let mut nonzero_limb_not_encountered = ConstChoice::TRUE;
+    while i > 0
+//@+
+    invariant i <= n, n == limbs@.len(), n < 0x400_0000, v == val(limbs@, n), nonzero_limb_not_encountered.wf(),
+        nonzero_limb_not_encountered.t() == (forall|k: int| i <= k < n ==> limbs@[k].0 == 0),
+        nonzero_limb_not_encountered.t() ==> count as int == 64 * (n - i),
+        !nonzero_limb_not_encountered.t() ==> (count as int) < 64 * (n - i) && v < p2((64 * n - count) as nat) && v >= p2((64 * n - count - 1) as nat),
+    decreases i,
 //@-
 {
-    unimplemented!()
-}
+        i -= 1;
+        let l = limbs[i];
+        let z = l.leading_zeros();
+//@+
+    proof {
+        if nonzero_limb_not_encountered.t() && l.0 != 0 {
+            lemma_val_top(limbs@, n, i as nat, (64 - z) as nat);
+            assert((64 * n - (count + z)) as nat == 64 * (i as nat) + (64 - z) as nat);
+            assert((64 * n - (count + z) - 1) as nat == (64 * (i as nat) + (64 - z) as nat - 1) as nat);
+        }
+    }
+//@-
+        count += nonzero_limb_not_encountered.if_true_u32(z);
+        nonzero_limb_not_encountered =
+            nonzero_limb_not_encountered.and(ConstChoice::from_word_nonzero(l.0).not());
+    }
+//@+
+    proof {
+        if nonzero_limb_not_encountered.t() { lemma_val_zero(limbs@, n); lemma2_to64(); }
+        else { lemma_pow2_pos((64 * n - count - 1) as nat); }
+    }
+//@-
+    count
 }
 //@@ end
-//@@ fn src/uint/bits.rs | impl<const LIMBS: usize> Uint<LIMBS> | bit | stub | props C05 C11
+//@@ fn src/uint/bits.rs | - | bits_vartime | body | props C05 C11 C15
+pub const fn bits_vartime(limbs: &[Limb]) -> (ret__: u32)
+//@+
+    requires 1 <= limbs@.len() < 0x400_0000
+    ensures ret__ as int <= 64 * limbs@.len(), (ret__ == 0) == (val(limbs@, limbs@.len()) == 0),
+        val(limbs@, limbs@.len()) < p2(ret__ as nat), ret__ > 0 ==> val(limbs@, limbs@.len()) >= p2((ret__ - 1) as nat)
+//@-
+{
+    let mut i = limbs.len() - 1;
+    while i > 0 && limbs[i].0 == 0
+//@+
+    invariant i < limbs@.len(), forall|k: int| i < k < limbs@.len() ==> limbs@[k].0 == 0,
+    decreases i,
+//@-
+{
+        i -= 1;
+    }
+    let limb = limbs[i];
+//@+
+    let ghost n = limbs@.len(); let ghost v = val(limbs@, limbs@.len()); let ghost x = limb.0 as int;
+    assert forall|z: u32| z <= 64 && ((z == 64) == (x == 0)) && x < #[trigger] p2((64 - z) as nat) && (z < 64 ==> x >= p2((63 - z) as nat))
+        implies ({ let r = 64 * (i + 1) - z; 0 <= r <= 64 * n && (r == 0) == (v == 0) && v < p2(r as nat) && (r > 0 ==> v >= p2((r - 1) as nat)) })
+    by {
+        if x == 0 { lemma_val_zero(limbs@, n); lemma2_to64(); }
+        else {
+            let b = (64 - z) as nat;
+            lemma_val_top(limbs@, n, i as nat, b);
+            lemma_pow2_pos((64 * i + b - 1) as nat);
+            assert((64 * (i + 1) - z) as nat == 64 * (i as nat) + b);
+        }
+    }
+//@-
+    Limb::BITS * (i as u32 + 1) - limb.leading_zeros()
+}
+//@@ end
+//@@ fn src/uint/bits.rs | - | trailing_zeros | body | props C05 C11
+pub const fn trailing_zeros(limbs: &[Limb]) -> (ret__: u32)
+//@+
+    requires limbs@.len() < 0x400_0000
+    ensures ret__ as int <= 64 * limbs@.len(), (ret__ as int == 64 * limbs@.len()) == (val(limbs@, limbs@.len()) == 0),
+        val(limbs@, limbs@.len()) % p2(ret__ as nat) == 0, (ret__ as int) < 64 * limbs@.len() ==> (val(limbs@, limbs@.len()) / p2(ret__ as nat)) % 2 == 1
+//@-
+{
+//@+
+    let ghost n = limbs@.len(); let ghost v = val(limbs@, limbs@.len());
+//@-
+    let mut count = 0;
+    let mut i = 0;
+    let mut nonzero_limb_not_encountered = ConstChoice::TRUE;
+    while i < limbs.len()
+//@+
+    invariant i <= n, n == limbs@.len(), n < 0x400_0000, v == val(limbs@, n), nonzero_limb_not_encountered.wf(),
+        nonzero_limb_not_encountered.t() == (forall|k: int| 0 <= k < i ==> limbs@[k].0 == 0),
+        nonzero_limb_not_encountered.t() ==> count as int == 64 * i,
+        !nonzero_limb_not_encountered.t() ==> (count as int) < 64 * i && v != 0 && v % p2(count as nat) == 0 && (v / p2(count as nat)) % 2 == 1,
+    decreases n - i,
+//@-
+{
+        let l = limbs[i];
+        let z = l.trailing_zeros();
+//@+
+    proof {
+        if nonzero_limb_not_encountered.t() && l.0 != 0 {
+            lemma_val_tz(limbs@, n, i as nat, z as nat);
+            assert((count + z) as nat == 64 * (i as nat) + z as nat);
+        }
+    }
+//@-
+        count += nonzero_limb_not_encountered.if_true_u32(z);
+        nonzero_limb_not_encountered =
+            nonzero_limb_not_encountered.and(ConstChoice::from_word_nonzero(l.0).not());
+        i += 1;
+    }
+//@+
+    proof {
+        if nonzero_limb_not_encountered.t() { lemma_val_zero(limbs@, n); lemma_pow2_pos(64 * n); lemma_small_mod(0, pow2(64 * n)); }
+    }
+//@-
+    count
+}
+//@@ end
+//@@ fn src/uint/bits.rs | - | trailing_zeros_vartime | body | props C05 C11 C15
+pub const fn trailing_zeros_vartime(limbs: &[Limb]) -> (ret__: u32)
+//@+
+    requires limbs@.len() < 0x400_0000
+    ensures ret__ as int <= 64 * limbs@.len(), (ret__ as int == 64 * limbs@.len()) == (val(limbs@, limbs@.len()) == 0),
+        val(limbs@, limbs@.len()) % p2(ret__ as nat) == 0, (ret__ as int) < 64 * limbs@.len() ==> (val(limbs@, limbs@.len()) / p2(ret__ as nat)) % 2 == 1
+//@-
+{
+//@+
+    let ghost n = limbs@.len(); let ghost v = val(limbs@, limbs@.len());
+    proof { if n == 0 { lemma_val_zero(limbs@, n); lemma_pow2_pos(64 * n); lemma_small_mod(0, pow2(64 * n)); } }
+//@-
+    let mut count = 0;
+    let mut i = 0;
+    while i < limbs.len()
+//@+
+    invariant_except_break i <= n, count as int == 64 * i, forall|k: int| 0 <= k < i ==> limbs@[k].0 == 0,
+        i == n ==> v == 0 && v % p2(64 * n) == 0,
+    invariant n == limbs@.len(), n < 0x400_0000, v == val(limbs@, n),
+    ensures count as int <= 64 * n, (count as int == 64 * n) == (v == 0), v % p2(count as nat) == 0,
+        (count as int) < 64 * n ==> (v / p2(count as nat)) % 2 == 1,
+    decreases n - i,
+//@-
+{
+        let l = limbs[i];
+        let z = l.trailing_zeros();
+        count += z;
+//@+
+    proof {
+        if z != 64 {
+            lemma_val_tz(limbs@, n, i as nat, z as nat);
+            assert(count as nat == 64 * (i as nat) + z as nat);
+        } else if i + 1 == n { lemma_val_zero(limbs@, n); lemma_pow2_pos(64 * n); lemma_small_mod(0, pow2(64 * n)); }
+    }
+//@-
+        if z != Limb::BITS {
+            break;
+        }
+        i += 1;
+    }
+    count
+}
+//@@ end
+//@@ fn src/uint/bits.rs | - | trailing_ones | body | props C05 C11
+pub const fn trailing_ones(limbs: &[Limb]) -> (ret__: u32)
+//@+
+    requires limbs@.len() < 0x400_0000
+    ensures ret__ as int <= 64 * limbs@.len(), (ret__ as int == 64 * limbs@.len()) == (val(limbs@, limbs@.len()) == bp(limbs@.len()) - 1),
+        (val(limbs@, limbs@.len()) + 1) % p2(ret__ as nat) == 0, (ret__ as int) < 64 * limbs@.len() ==> (val(limbs@, limbs@.len()) / p2(ret__ as nat)) % 2 == 0
+//@-
+{
+//@+
+    let ghost n = limbs@.len(); let ghost v = val(limbs@, limbs@.len());
+//@-
+    let mut count = 0;
+    let mut i = 0;
+    let mut nonmax_limb_not_encountered = ConstChoice::TRUE;
+    while i < limbs.len()
+//@+
+    invariant i <= n, n == limbs@.len(), n < 0x400_0000, v == val(limbs@, n), nonmax_limb_not_encountered.wf(),
+        nonmax_limb_not_encountered.t() == (forall|k: int| 0 <= k < i ==> limbs@[k].0 == u64::MAX),
+        nonmax_limb_not_encountered.t() ==> count as int == 64 * i,
+        !nonmax_limb_not_encountered.t() ==> (count as int) < 64 * i && v != bp(n) - 1 && (v + 1) % p2(count as nat) == 0 && (v / p2(count as nat)) % 2 == 0,
+    decreases n - i,
+//@-
+{
+        let l = limbs[i];
+        let z = l.trailing_ones();
+//@+
+    proof {
+        if nonmax_limb_not_encountered.t() && l.0 != u64::MAX {
+            lemma_val_to(limbs@, n, i as nat, z as nat);
+            assert((count + z) as nat == 64 * (i as nat) + z as nat);
+        }
+    }
+//@-
+        count += nonmax_limb_not_encountered.if_true_u32(z);
+        nonmax_limb_not_encountered =
+            nonmax_limb_not_encountered.and(ConstChoice::from_word_eq(l.0, Limb::MAX.0));
+        i += 1;
+    }
+//@+
+    proof {
+        if nonmax_limb_not_encountered.t() { lemma_val_all_max(limbs@, n); lemma_bp_pow2(n); lemma_pow2_pos(64 * n); lemma_mod_self_0(p2(64 * n)); }
+    }
+//@-
+    count
+}
+//@@ end
+//@@ fn src/uint/bits.rs | - | trailing_ones_vartime | body | props C05 C11 C15
+pub const fn trailing_ones_vartime(limbs: &[Limb]) -> (ret__: u32)
+//@+
+    requires limbs@.len() < 0x400_0000
+    ensures ret__ as int <= 64 * limbs@.len(), (ret__ as int == 64 * limbs@.len()) == (val(limbs@, limbs@.len()) == bp(limbs@.len()) - 1),
+        (val(limbs@, limbs@.len()) + 1) % p2(ret__ as nat) == 0, (ret__ as int) < 64 * limbs@.len() ==> (val(limbs@, limbs@.len()) / p2(ret__ as nat)) % 2 == 0
+//@-
+{
+//@+
+    let ghost n = limbs@.len(); let ghost v = val(limbs@, limbs@.len());
+    proof { if n == 0 { lemma_val_all_max(limbs@, n); lemma_bp_pow2(n); lemma_pow2_pos(64 * n); lemma_mod_self_0(p2(64 * n)); } }
+//@-
+    let mut count = 0;
+    let mut i = 0;
+    while i < limbs.len()
+//@+
+    invariant_except_break i <= n, count as int == 64 * i, forall|k: int| 0 <= k < i ==> limbs@[k].0 == u64::MAX,
+        i == n ==> v == bp(n) - 1 && (v + 1) % p2(64 * n) == 0,
+    invariant n == limbs@.len(), n < 0x400_0000, v == val(limbs@, n),
+    ensures count as int <= 64 * n, (count as int == 64 * n) == (v == bp(n) - 1), (v + 1) % p2(count as nat) == 0,
+        (count as int) < 64 * n ==> (v / p2(count as nat)) % 2 == 0,
+    decreases n - i,
+//@-
+{
+        let l = limbs[i];
+        let z = l.trailing_ones();
+        count += z;
+//@+
+    proof {
+        if z != 64 {
+            lemma_val_to(limbs@, n, i as nat, z as nat);
+            assert(count as nat == 64 * (i as nat) + z as nat);
+        } else if i + 1 == n { lemma_val_all_max(limbs@, n); lemma_bp_pow2(n); lemma_pow2_pos(64 * n); lemma_mod_self_0(p2(64 * n)); }
+    }
+//@-
+        if z != Limb::BITS {
+            break;
+        }
+        i += 1;
+    }
+    count
+}
+//@@ end
+//@@ fn src/uint/bits.rs | impl<const LIMBS: usize> Uint<LIMBS> | bit | body | props C05 C11
 impl<const LIMBS: usize> Uint<LIMBS> {
-#[verifier::external_body]
 pub const fn bit(&self, index: u32) -> (ret__: ConstChoice)
 //@+
     requires 1 <= LIMBS < 0x400_0000
     ensures ret__.wf(), ret__.t() == ((index as int) < 64 * LIMBS && (self.v() / p2(index as nat)) % 2 == 1)
 //@-
 {
-    unimplemented!()
-}
+        bit(&self.limbs, index)
+    }
 }
 //@@ end
-//@@ fn src/uint/bits.rs | impl<const LIMBS: usize> Uint<LIMBS> | bit_vartime | stub | props C05 C11 C15
+//@@ fn src/uint/bits.rs | impl<const LIMBS: usize> Uint<LIMBS> | bit_vartime | body | props C05 C11 C15
 impl<const LIMBS: usize> Uint<LIMBS> {
-#[verifier::external_body]
 pub const fn bit_vartime(&self, index: u32) -> (ret__: bool)
 //@+
     requires 1 <= LIMBS < 0x400_0000
     ensures ret__ == ((index as int) < 64 * LIMBS && (self.v() / p2(index as nat)) % 2 == 1)
 //@-
 {
-    unimplemented!()
-}
+        bit_vartime(&self.limbs, index)
+    }
 }
 //@@ end
-//@@ fn src/uint/bits.rs | impl<const LIMBS: usize> Uint<LIMBS> | set_bit | stub | props C05 C11
+//@@ fn src/uint/bits.rs | impl<const LIMBS: usize> Uint<LIMBS> | leading_zeros | body | props C05 C11
 impl<const LIMBS: usize> Uint<LIMBS> {
-#[verifier::external_body]
+pub const fn leading_zeros(&self) -> (ret__: u32)
+//@+
+    requires 1 <= LIMBS < 0x400_0000
+    ensures ret__ as int <= 64 * LIMBS, (ret__ as int == 64 * LIMBS) == (self.v() == 0), self.v() < p2((64 * LIMBS - ret__) as nat), (ret__ as int) < 64 * LIMBS ==> self.v() >= p2((64 * LIMBS - ret__ - 1) as nat)
+//@-
+{
+        leading_zeros(&self.limbs)
+    }
+}
+//@@ end
+//@@ fn src/uint/bits.rs | impl<const LIMBS: usize> Uint<LIMBS> | bits_vartime | body | props C05 C11 C15
+impl<const LIMBS: usize> Uint<LIMBS> {
+pub const fn bits_vartime(&self) -> (ret__: u32)
+//@+
+    requires 1 <= LIMBS < 0x400_0000
+    ensures ret__ as int <= 64 * LIMBS, (ret__ == 0) == (self.v() == 0), self.v() < p2(ret__ as nat), ret__ > 0 ==> self.v() >= p2((ret__ - 1) as nat)
+//@-
+{
+        bits_vartime(&self.limbs)
+    }
+}
+//@@ end
+//@@ fn src/uint/bits.rs | impl<const LIMBS: usize> Uint<LIMBS> | bits | body | props C05 C11
+impl<const LIMBS: usize> Uint<LIMBS> {
+pub const fn bits(&self) -> (ret__: u32)
+//@+
+    requires 1 <= LIMBS < 0x400_0000
+    ensures ret__ as int <= 64 * LIMBS, (ret__ == 0) == (self.v() == 0), self.v() < p2(ret__ as nat), ret__ > 0 ==> self.v() >= p2((ret__ - 1) as nat)
+//@-
+{
+        Self::BITS() - self.leading_zeros()
+    }
+}
+//@@ end
+//@@ fn src/uint/bits.rs | impl<const LIMBS: usize> Uint<LIMBS> | leading_zeros_vartime | body | props C05 C11 C15
+impl<const LIMBS: usize> Uint<LIMBS> {
+pub const fn leading_zeros_vartime(&self) -> (ret__: u32)
+//@+
+    requires 1 <= LIMBS < 0x400_0000
+    ensures ret__ as int <= 64 * LIMBS, (ret__ as int == 64 * LIMBS) == (self.v() == 0), self.v() < p2((64 * LIMBS - ret__) as nat), (ret__ as int) < 64 * LIMBS ==> self.v() >= p2((64 * LIMBS - ret__ - 1) as nat)
+//@-
+{
+        Self::BITS() - self.bits_vartime()
+    }
+}
+//@@ end
+//@@ fn src/uint/bits.rs | impl<const LIMBS: usize> Uint<LIMBS> | trailing_zeros | body | props C05 C11
+impl<const LIMBS: usize> Uint<LIMBS> {
+pub const fn trailing_zeros(&self) -> (ret__: u32)
+//@+
+    requires 1 <= LIMBS < 0x400_0000
+    ensures ret__ as int <= 64 * LIMBS, (ret__ as int == 64 * LIMBS) == (self.v() == 0), self.v() % p2(ret__ as nat) == 0, (ret__ as int) < 64 * LIMBS ==> (self.v() / p2(ret__ as nat)) % 2 == 1
+//@-
+{
+        trailing_zeros(&self.limbs)
+    }
+}
+//@@ end
+//@@ fn src/uint/bits.rs | impl<const LIMBS: usize> Uint<LIMBS> | trailing_zeros_vartime | body | props C05 C11 C15
+impl<const LIMBS: usize> Uint<LIMBS> {
+pub const fn trailing_zeros_vartime(&self) -> (ret__: u32)
+//@+
+    requires 1 <= LIMBS < 0x400_0000
+    ensures ret__ as int <= 64 * LIMBS, (ret__ as int == 64 * LIMBS) == (self.v() == 0), self.v() % p2(ret__ as nat) == 0, (ret__ as int) < 64 * LIMBS ==> (self.v() / p2(ret__ as nat)) % 2 == 1
+//@-
+{
+        trailing_zeros_vartime(&self.limbs)
+    }
+}
+//@@ end
+//@@ fn src/uint/bits.rs | impl<const LIMBS: usize> Uint<LIMBS> | trailing_ones | body | props C05 C11
+impl<const LIMBS: usize> Uint<LIMBS> {
+pub const fn trailing_ones(&self) -> (ret__: u32)
+//@+
+    requires 1 <= LIMBS < 0x400_0000
+    ensures ret__ as int <= 64 * LIMBS, (ret__ as int == 64 * LIMBS) == (self.v() == bp(LIMBS as nat) - 1), (self.v() + 1) % p2(ret__ as nat) == 0, (ret__ as int) < 64 * LIMBS ==> (self.v() / p2(ret__ as nat)) % 2 == 0
+//@-
+{
+        trailing_ones(&self.limbs)
+    }
+}
+//@@ end
+//@@ fn src/uint/bits.rs | impl<const LIMBS: usize> Uint<LIMBS> | trailing_ones_vartime | body | props C05 C11 C15
+impl<const LIMBS: usize> Uint<LIMBS> {
+pub const fn trailing_ones_vartime(&self) -> (ret__: u32)
+//@+
+    requires 1 <= LIMBS < 0x400_0000
+    ensures ret__ as int <= 64 * LIMBS, (ret__ as int == 64 * LIMBS) == (self.v() == bp(LIMBS as nat) - 1), (self.v() + 1) % p2(ret__ as nat) == 0, (ret__ as int) < 64 * LIMBS ==> (self.v() / p2(ret__ as nat)) % 2 == 0
+//@-
+{
+        trailing_ones_vartime(&self.limbs)
+    }
+}
+//@@ end
+//@@ fn src/uint/bits.rs | impl<const LIMBS: usize> Uint<LIMBS> | set_bit | body | props C05 C11
+impl<const LIMBS: usize> Uint<LIMBS> {
 pub const fn set_bit(self, index: u32, bit_value: ConstChoice) -> (ret__: Self)
 //@+
     requires 1 <= LIMBS < 0x400_0000, bit_value.wf()
@@ -468,23 +1063,81 @@ pub const fn set_bit(self, index: u32, bit_value: ConstChoice) -> (ret__: Self)
         (index as int) >= 64 * LIMBS ==> ret__.v() == self.v()
 //@-
 {
-    unimplemented!()
-}
+        let mut result = self;
+        let limb_num = index / Limb::BITS;
+        let index_in_limb = index % Limb::BITS;
+        let index_mask = 1 << index_in_limb;
+//@+
+    let ghost c: int = if bit_value.t() { 1 } else { 0 };
+    let ghost pr = p2(index_in_limb as nat);
+//@-
+        let mut i = 0;
+        while i < LIMBS
+//@+
+    invariant i <= LIMBS, LIMBS < 0x400_0000, bit_value.wf(), index_in_limb < 64, index_mask == 1u64 << index_in_limb,
+        c == (if bit_value.t() { 1int } else { 0int }), pr == p2(index_in_limb as nat),
+        forall|k: int| 0 <= k < LIMBS && (k != limb_num || k >= i) ==> result.limbs@[k] == self.limbs@[k],
+        (limb_num as int) < i ==> result.limbs@[limb_num as int].0 as int == self.limbs@[limb_num as int].0 as int
+            - (if (self.limbs@[limb_num as int].0 as int / pr) % 2 == 1 { pr } else { 0 }) + (if c == 1 { pr } else { 0 }),
+    decreases LIMBS - i,
+//@-
+{
+//@+
+    proof { lemma_word_set_bit(result.limbs@[i as int].0, index_in_limb); }
+//@-
+            let is_right_limb = ConstChoice::from_u32_eq(i as u32, limb_num);
+            let old_limb = result.limbs[i].0;
+            let new_limb = bit_value.select_word(old_limb & !index_mask, old_limb | index_mask);
+            result.limbs[i] = Limb(is_right_limb.select_word(old_limb, new_limb));
+            i += 1;
+        }
+//@+
+    proof {
+        if (index as int) < 64 * LIMBS {
+            lemma_set_bit_value(self.limbs@, result.limbs@, LIMBS as nat, limb_num as nat, index_in_limb as nat, c);
+            assert(index as nat == 64 * (limb_num as nat) + index_in_limb as nat);
+        } else {
+            lemma_val_ext(self.limbs@, result.limbs@, LIMBS as nat);
+        }
+    }
+//@-
+        result
+    }
 }
 //@@ end
-//@@ fn src/uint/bits.rs | impl<const LIMBS: usize> Uint<LIMBS> | set_bit_vartime | stub | props C05 C11 C15
+//@@ fn src/uint/bits.rs | impl<const LIMBS: usize> Uint<LIMBS> | set_bit_vartime | body | props C05 C11 C15
 impl<const LIMBS: usize> Uint<LIMBS> {
-#[verifier::external_body]
 pub const fn set_bit_vartime(self, index: u32, bit_value: bool) -> (ret__: Self)
 //@+
     requires 1 <= LIMBS < 0x400_0000, (index as int) < 64 * LIMBS
     ensures ret__.v() == self.v() - ((self.v() / p2(index as nat)) % 2) * p2(index as nat) + (if bit_value { 1int } else { 0int }) * p2(index as nat)
 //@-
 {
-    unimplemented!()
-}
+        let mut result = self;
+        let limb_num = (index / Limb::BITS) as usize;
+        let index_in_limb = index % Limb::BITS;
+//@+
+    proof { lemma_word_set_bit(self.limbs@[limb_num as int].0, index_in_limb); }
+//@-
+        if bit_value {
+            result.limbs[limb_num].0 |= 1 << index_in_limb;
+        } else {
+            {
+                result.limbs[limb_num].0 &= !((1 as Word) << index_in_limb);
+            }
+        }
+//@+
+    proof {
+        lemma_set_bit_value(self.limbs@, result.limbs@, LIMBS as nat, limb_num as nat, index_in_limb as nat, if bit_value { 1 } else { 0 });
+        assert(index as nat == 64 * (limb_num as nat) + index_in_limb as nat);
+    }
+//@-
+        result
+    }
 }
 //@@ end
+
+// ---------------------------------------------------------------- shifts (src/uint/shl.rs, shr.rs)
 //@@ fn src/uint/shl.rs | impl<const LIMBS: usize> Uint<LIMBS> | shl | body | props C05 C11
 impl<const LIMBS: usize> Uint<LIMBS> {
 pub const fn shl(&self, shift: u32) -> (ret__: Self)
@@ -618,9 +1271,10 @@ pub const fn overflowing_shl_vartime(&self, shift: u32) -> (ret__: ConstCtOption
         if rem == 0 {
             lemma_shl_limbs_mod(self.limbs@, LIMBS as nat, sn, 0, shift as nat);
             lemma_pow2_64();
-            assert(lowv * bp(sn) * 1 == lowv * bp(sn)) by (nonlinear_arith);
+            let x = val(p1, LIMBS as nat);
+            assert(lowv * bp(sn) * p2(0) == x) by (nonlinear_arith) requires x == lowv * bp(sn), p2(0) == 1;
             lemma_val_bound(p1, LIMBS as nat);
-            lemma_small_mod((lowv * bp(sn)) as nat, bp(LIMBS as nat) as nat);
+            lemma_small_mod(x as nat, bp(LIMBS as nat) as nat);
         }
     }
 //@-
@@ -721,11 +1375,8 @@ pub const fn shl_limb(&self, shift: u32) -> (ret__: (Self, Limb))
     proof {
         let x0 = self.limbs@[0].0;
         lemma_shl_word(x0, shift); lemma_bp1();
-        assert(val(limbs@, 1) == val(limbs@, 0) + limbs@[0].0 as int * bp(0));
-        assert(val(self.limbs@, 1) == val(self.limbs@, 0) + x0 as int * bp(0));
+        lemma_val_one(limbs@); lemma_val_one(self.limbs@);
         assert(limbs@[0].0 == x0 << shift);
-        assert(val(limbs@, 1) == (x0 << shift) as int);
-        assert(val(self.limbs@, 1) == x0 as int);
     }
 //@-
         let mut i = 1;
@@ -1125,7 +1776,7 @@ pub const fn overflowing_shl_vartime_wide(
         shift: u32,
     ) -> (ret__: ConstCtOption<(Self, Self)>)
 //@+
-    requires 1 <= LIMBS < 0x200_0000, shift != 0
+    requires 1 <= LIMBS < 0x200_0000
     ensures ret__.is_some.wf(), ret__.is_some.t() == ((shift as int) < 128 * LIMBS),
         ret__.is_some.t() ==> ret__.value.0.v() + ret__.value.1.v() * bp(LIMBS as nat) == ((lower_upper.0.v() + lower_upper.1.v() * bp(LIMBS as nat)) * p2(shift as nat)) % (bp(LIMBS as nat) * bp(LIMBS as nat)),
         !ret__.is_some.t() ==> ret__.value.0.v() == 0 && ret__.value.1.v() == 0
@@ -1145,8 +1796,10 @@ pub const fn overflowing_shl_vartime_wide(
 //@+
     proof {
         let s2 = (shift - 64 * LIMBS) as nat; let l = lower.v(); let u = lower_upper.1.v();
-        lemma_pow2_adds(bits, s2);
+        lemma_pow2_adds(bits, s2); lemma_pow2_pos(s2);
         assert((l + u * w) * p2(shift as nat) == (l * p2(s2)) * w + (w * w) * (u * p2(s2))) by (nonlinear_arith) requires p2(shift as nat) == w * p2(s2);
+        assert(w * w > 0) by (nonlinear_arith) requires w > 0;
+        assert(l * p2(s2) >= 0) by (nonlinear_arith) requires l >= 0, p2(s2) > 0;
         lemma_mod_multiples_vanish(u * p2(s2), (l * p2(s2)) * w, w * w);
         lemma_mod_shift_w(l * p2(s2), w);
     }
@@ -1156,15 +1809,15 @@ pub const fn overflowing_shl_vartime_wide(
             let new_lower = lower
                 .overflowing_shl_vartime(shift)
                 .expect("shift within range");
-            let upper_lo = lower
-                .overflowing_shr_vartime(Self::BITS() - shift)
-                .expect("shift within range");
+            // `shift == 0` shifts out every bit of `lower`: `wrapping_shr_vartime` returns zero then
+            let upper_lo = lower.wrapping_shr_vartime(Self::BITS() - shift);
             let upper_hi = upper
                 .overflowing_shl_vartime(shift)
                 .expect("shift within range");
 //@+
     proof {
         lemma_wide_shl_small(lower.v(), upper.v(), w, shift as nat, bits);
+        if shift == 0 { lemma_basic_div(lower.v(), w); }
         assert forall|o: Seq<Limb>| (forall|k: int| 0 <= k < LIMBS ==> o[k].0 == upper_lo.limbs@[k].0 | upper_hi.limbs@[k].0) implies #[trigger] val(o, LIMBS as nat) == upper_lo.v() + upper_hi.v() by {
             lemma_uint_or_disjoint(upper_lo.limbs@, upper_hi.limbs@, o, LIMBS as nat, shift as nat);
         }
@@ -1182,7 +1835,7 @@ pub const fn overflowing_shr_vartime_wide(
         shift: u32,
     ) -> (ret__: ConstCtOption<(Self, Self)>)
 //@+
-    requires 1 <= LIMBS < 0x200_0000, shift != 0
+    requires 1 <= LIMBS < 0x200_0000
     ensures ret__.is_some.wf(), ret__.is_some.t() == ((shift as int) < 128 * LIMBS),
         ret__.is_some.t() ==> ret__.value.0.v() + ret__.value.1.v() * bp(LIMBS as nat) == (lower_upper.0.v() + lower_upper.1.v() * bp(LIMBS as nat)) / p2(shift as nat),
         !ret__.is_some.t() ==> ret__.value.0.v() == 0 && ret__.value.1.v() == 0
@@ -1215,15 +1868,15 @@ pub const fn overflowing_shr_vartime_wide(
             let new_upper = upper
                 .overflowing_shr_vartime(shift)
                 .expect("shift within range");
-            let lower_hi = upper
-                .overflowing_shl_vartime(Self::BITS() - shift)
-                .expect("shift within range");
+            // `shift == 0` shifts out every bit of `upper`: `wrapping_shl_vartime` returns zero then
+            let lower_hi = upper.wrapping_shl_vartime(Self::BITS() - shift);
             let lower_lo = lower
                 .overflowing_shr_vartime(shift)
                 .expect("shift within range");
 //@+
     proof {
         lemma_wide_shr_small(lower.v(), upper.v(), w, shift as nat, bits);
+        if shift == 0 { lemma_mod_multiples_basic(upper.v(), w); }
         assert forall|o: Seq<Limb>| (forall|k: int| 0 <= k < LIMBS ==> o[k].0 == lower_lo.limbs@[k].0 | lower_hi.limbs@[k].0) implies #[trigger] val(o, LIMBS as nat) == lower_lo.v() + lower_hi.v() by {
             lemma_uint_or_disjoint(lower_lo.limbs@, lower_hi.limbs@, o, LIMBS as nat, (64 * LIMBS - shift) as nat);
         }
